@@ -154,3 +154,147 @@ func runGeneralise(r *core.Run) {
 	}()
 	r.Extra["trees_well_typed"] = fmt.Sprintf("%d of %d (parser rejected %d generated texts)", typedOK, typedOK+typedBad, unparsed)
 }
+
+// ---- near-miss patterns: one element of a list left out ----
+
+type tokNode struct {
+	kind string
+	idx  int
+	kids []*tokNode
+}
+
+func parseTokTree(toks []string, pos *int) *tokNode {
+	t := toks[*pos]
+	n := &tokNode{idx: *pos, kind: "leaf"}
+	*pos++
+	if strings.HasPrefix(t, "N") {
+		c := strings.Index(t, ":")
+		n.kind = t[1:c]
+		k := core.Atoi(t[c+1:])
+		for i := 0; i < k; i++ {
+			n.kids = append(n.kids, parseTokTree(toks, pos))
+		}
+	}
+	return n
+}
+
+var dropListKinds = map[string]bool{"SelectExprs": true, "TableExprs": true, "GroupBy": true, "OrderBy": true, "Columns": true, "Values": true,
+	"ValTuple": true, "UpdateExprs": true, "OnDup": true, "Partitions": true, "list": true}
+
+// dropCandidates: indices of list elements whose removal from the pattern must make it fail (lists the comparators
+// compare by length; not below RETURNING, which no comparator reads; not when a lone `*` would remain, which
+// matches every select list by design).
+func dropCandidates(stmtTok string) ([]int, map[int]int) {
+	parts := strings.SplitN(stmtTok, "/", 3)
+	if len(parts) != 3 {
+		return nil, nil
+	}
+	pos := 0
+	root := parseTokTree(strings.Split(parts[2], ","), &pos)
+	sizes := map[int]int{}
+	var size func(n *tokNode) int
+	size = func(n *tokNode) int {
+		s := 1
+		for _, k := range n.kids {
+			s += size(k)
+		}
+		sizes[n.idx] = s
+		return s
+	}
+	size(root)
+	var out []int
+	var walk func(n *tokNode)
+	walk = func(n *tokNode) {
+		if n.kind == "Returning" {
+			return
+		}
+		if dropListKinds[n.kind] {
+			for i, k := range n.kids {
+				if n.kind == "SelectExprs" && len(n.kids) == 2 && n.kids[1-i].kind == "StarExpr" {
+					continue
+				}
+				out = append(out, k.idx)
+			}
+		}
+		for _, k := range n.kids {
+			walk(k)
+		}
+	}
+	walk(root)
+	return out, sizes
+}
+
+// runDrops: a pattern that lacks one element of a list of the statement (SET list, select list, VALUES row or value,
+// IN list, GROUP BY, ORDER BY, column list, FROM list, …) must not match it – with its literals spelled out and with
+// all of them generalised to %%VALUE%%.
+func runDrops(r *core.Run) {
+	n := r.N(120, 1200)
+	for i := 0; i < n; i++ {
+		rnd := r.Rand.Fork()
+		var raw, kind string
+		if i%3 == 0 {
+			s := genStatement(rnd)
+			raw, kind = renderStmt(s, nil, plainStyle, rnd), s.kind
+		} else {
+			raw, kind = (&rich{r: rnd}).statement()
+		}
+		st := stmtToken(raw)
+		if strings.HasSuffix(st, "/!") {
+			continue
+		}
+		cands, sizes := dropCandidates(st)
+		if len(cands) == 0 {
+			continue
+		}
+		var values []string
+		if pos := r.ModelOnly("C05.positions " + st); pos != "-" {
+			for _, e := range strings.Split(pos, ",") {
+				if strings.HasSuffix(e, ":v") {
+					values = append(values, e)
+				}
+			}
+		}
+		picks := cands
+		if !r.Thorough() && len(picks) > 6 {
+			off := rnd.Intn(len(picks))
+			picks = nil
+			for j := 0; j < 6; j++ {
+				picks = append(picks, cands[(off+j*5)%len(cands)])
+			}
+		}
+		seen := map[int]bool{}
+		for _, c := range picks {
+			if seen[c] {
+				continue
+			}
+			seen[c] = true
+			for _, withValues := range []bool{false, true} {
+				sg := fmt.Sprintf("%d:d", c)
+				if withValues {
+					// all literals as %%VALUE%%, except those that would swallow the dropped element (a function call around it)
+					var vs []string
+					for _, e := range values {
+						vi := core.Atoi(e[:strings.Index(e, ":")])
+						if vi < c && c < vi+sizes[vi] {
+							continue
+						}
+						vs = append(vs, e)
+					}
+					if len(vs) == 0 {
+						continue
+					}
+					sg += "," + strings.Join(vs, ",")
+				}
+				r.Begin("drop:"+sg+"|"+raw, true, "pattern-drop", "stmt:"+kind)
+				out := r.Impl("C05.dropgen " + st + " " + sg)
+				f := strings.SplitN(out, " ", 2)
+				if len(f) != 2 {
+					r.Fail("harness-drop", "C05.dropgen failed on `"+raw+"` σ="+sg+": "+out)
+					continue
+				}
+				r.Diff("C05.matchtree "+f[1]+" "+st, f[0])
+				r.Check(f[0] == "false", "pattern-shorter-list-matches", "a pattern that lacks list element #"+fmt.Sprint(c)+" of `"+raw+"` (σ="+sg+") still matches it on the real matcher")
+			}
+		}
+	}
+}
